@@ -19,6 +19,8 @@ T_PeerSend == IsEvent("PeerSend") /\ sent' = sent + E.n
               /\ UNCHANGED <<K, calls, cancelled, closeStarted, closeDone, connClosed, closeHung, chan, got, stolen>>
 \* packets for a channel that does not exist only produce connection errors (which these scenarios leave unconsumed)
 T_Stray == IsEvent("Stray") /\ UNCHANGED <<K, sent, calls, cancelled, closeStarted, closeDone, connClosed, closeHung, got, stolen, chan>>
+\* from now on the transport refuses every write (the teardown packet of a Close cannot be sent)
+T_WriteFails == IsEvent("WriteFails") /\ UNCHANGED <<K, sent, calls, cancelled, closeStarted, closeDone, connClosed, closeHung, got, stolen, chan>>
 T_Cancel == IsEvent("Cancel") /\ cancelled' = cancelled \cup {E.ctx}
             /\ UNCHANGED <<K, sent, calls, closeStarted, closeDone, connClosed, closeHung, chan, got, stolen>>
 
@@ -145,7 +147,7 @@ T_HungLogoutWait ==
 T_End == IsEvent("End") /\ (\A i \in DOMAIN calls : calls[i].st = "done")
          /\ UNCHANGED <<K, sent, calls, cancelled, closeStarted, closeDone, connClosed, closeHung, chan, got, stolen>>
 Next == T_Reset \/ T_Setup \/ T_PeerSend \/ T_Stray \/ T_Cancel \/ T_CallStart \/ T_CallEnd \/ T_HungRecv \/ T_HungUntil \/ T_HungOther
-        \/ T_HungLogoutWait \/ KF_CloseBehindParkedReader \/ KF_CloseBehindBlockedReceiver \/ T_End
+        \/ T_HungLogoutWait \/ T_WriteFails \/ KF_CloseBehindParkedReader \/ KF_CloseBehindBlockedReceiver \/ T_End
 Spec == Init /\ [][Next]_vars
 HW == HWOf(l)
 =============================================================================
